@@ -70,7 +70,9 @@ def dump_module(name):
             items = {}
             for tag, a in t.accessors.items():
                 dd = a._decl
-                items[tag] = [dd["cls"], dd["type"], dd["pos"], dd["bitpos"], dd["items"], dd["size"], dd["maxitems"], dd["rw"],
+                # labels: what the accessor actually offers (a.items), which must be the published list as declared
+                eff = list(a.items) if getattr(a, "items", None) is not None else None
+                items[tag] = [dd["cls"], dd["type"], dd["pos"], dd["bitpos"], eff if eff != dd["items"] else dd["items"], dd["size"], dd["maxitems"], dd["rw"],
                               a.length, getattr(a, "bitmask", None) if dd["bitpos"] is not None else None, a.tag]
                 _WRITABLE[(name, kind, tag)] = _effective_writable(a, dd)
             d["items"] = items
@@ -276,7 +278,8 @@ def _lookup_job(job):
 
 def _item_row(a):
     dd = a._decl
-    return [dd["cls"], dd["type"], dd["pos"], dd["bitpos"], dd["items"], dd["size"], dd["maxitems"], dd["rw"],
+    eff = list(a.items) if getattr(a, "items", None) is not None else None
+    return [dd["cls"], dd["type"], dd["pos"], dd["bitpos"], eff if eff != dd["items"] else dd["items"], dd["size"], dd["maxitems"], dd["rw"],
             a.length, getattr(a, "bitmask", None) if dd["bitpos"] is not None else None, a.tag]
 
 
